@@ -55,12 +55,13 @@ class Spec:
         st.push_off = False      # our ENABLE_PUSH=0 has been acknowledged
         st.push0_sent = False
         st.badset = False
+        st.badopen = False
         st.remote_limit = BIG
         st.dead = False
         return [("start", st)]
 
     def fingerprint(self, st):
-        return fingerprint(st.h.conn, st.h.m.key(), st.local_limit, tuple(st.pending), st.remote_limit, st.dead, st.push_off, st.push0_sent, st.badset)
+        return fingerprint(st.h.conn, st.h.m.key(), st.local_limit, tuple(st.pending), st.remote_limit, st.dead, st.push_off, st.push0_sent, st.badset, st.badopen)
 
     def actions(self, st):
         if st.dead:
@@ -72,6 +73,8 @@ class Spec:
         if self.client:
             if n_local < self.max_ids:
                 acts += ["l:open", "l:open:es"]
+                if not st.badopen:
+                    acts.append("l:openbad")      # refused for its priority fields: opens nothing, and a retry is judged as a first try
             if n_peer < self.max_ids and not st.push_off:
                 acts += ["rx:push"]
             if not st.push0_sent and not st.pending:
@@ -220,6 +223,14 @@ class Spec:
                 st.dead = True
                 return Step(out + "-conn-error", viols, prune=True)
             out += "-rejected" if rejected else "-ok"
+        elif parts[:2] == ["l", "openbad"]:
+            st.badopen = True
+            sid = m.hi_local + 2 if m.hi_local else 1
+            o = h.api("send_headers", sid, H.ni(H.REQ_POST), priority_weight=300)
+            if o.kind == "ok" or o.raw:
+                bad("invalid-priority-accepted", "%s -> %s" % (lab, o.brief()))
+                st.dead = True
+                return Step("openbad-accepted", viols, prune=True)
         elif parts[:2] == ["l", "badresp"]:
             o = h.api("send_headers", int(parts[2]), H.ni(H.RESP + [(b"te", b"gzip")]))
             if o.kind == "ok" or o.raw:
